@@ -73,13 +73,41 @@ mod imp {
     use arbitrary::{Arbitrary, Unstructured};
     use ctap_types::{authenticator, ctap1, ctap2, webauthn as wa};
 
-    struct Audit {
+    struct Audit<'e> {
         problems: Vec<String>,
         strings: u32,
         nonempty_strings: u32,
+        /// the entropy the request was generated from: every borrowed field must point into it
+        base: &'e [u8],
     }
 
-    impl Audit {
+    impl<'e> Audit<'e> {
+        /// A request generated from `Unstructured<'a>` may only borrow from the entropy slice.
+        fn borrowed(&mut self, name: &str, b: &[u8]) {
+            if b.is_empty() {
+                return;
+            }
+            let lo = self.base.as_ptr() as usize;
+            let hi = lo + self.base.len();
+            let p = b.as_ptr() as usize;
+            if p < lo || p + b.len() > hi {
+                self.problems.push(format!("{} ({} bytes) does not borrow from the input: dangling or foreign memory", name, b.len()));
+            }
+        }
+        fn ctap1(&mut self, r: &ctap1::Request) {
+            match r {
+                ctap1::Request::Register(q) => {
+                    self.borrowed("register.challenge", q.challenge);
+                    self.borrowed("register.app_id", q.app_id);
+                }
+                ctap1::Request::Authenticate(q) => {
+                    self.borrowed("authenticate.challenge", q.challenge);
+                    self.borrowed("authenticate.app_id", q.app_id);
+                    self.borrowed("authenticate.key_handle", q.key_handle);
+                }
+                ctap1::Request::Version => {}
+            }
+        }
         fn text(&mut self, name: &str, b: &[u8], cap: Option<usize>) {
             self.strings += 1;
             if !b.is_empty() {
@@ -113,6 +141,8 @@ mod imp {
         }
         fn descriptor(&mut self, d: &wa::PublicKeyCredentialDescriptorRef) {
             self.text("descriptor.type", d.key_type.as_bytes(), None);
+            self.borrowed("descriptor.type", d.key_type.as_bytes());
+            self.borrowed("descriptor.id", d.id);
         }
         fn key(&mut self, k: &cosey::EcdhEsHkdf256PublicKey) {
             self.bounded("keyAgreement.x", k.x.len(), 32);
@@ -124,6 +154,10 @@ mod imp {
         fn ctap2(&mut self, r: &ctap2::Request) {
             match r {
                 ctap2::Request::MakeCredential(m) => {
+                    self.borrowed("clientDataHash", m.client_data_hash);
+                    if let Some(p) = m.pin_auth {
+                        self.borrowed("pinAuth", p);
+                    }
                     self.text("rp.id", m.rp.id.as_bytes(), Some(256));
                     if let Some(n) = &m.rp.name {
                         self.text("rp.name", n.as_bytes(), Some(64));
@@ -146,6 +180,11 @@ mod imp {
                     }
                 }
                 ctap2::Request::GetAssertion(g) => {
+                    self.borrowed("rpId", g.rp_id.as_bytes());
+                    self.borrowed("clientDataHash", g.client_data_hash);
+                    if let Some(p) = g.pin_auth {
+                        self.borrowed("pinAuth", p);
+                    }
                     self.text("rpId", g.rp_id.as_bytes(), None);
                     if let Some(l) = &g.allow_list {
                         self.bounded("allowList", l.len(), 10);
@@ -170,10 +209,29 @@ mod imp {
                     }
                     if let Some(r) = c.rp_id {
                         self.text("clientPin.rpId", r.as_bytes(), None);
+                        self.borrowed("clientPin.rpId", r.as_bytes());
+                    }
+                    for (n, f) in [("pinAuth", c.pin_auth), ("newPinEnc", c.new_pin_enc), ("pinHashEnc", c.pin_hash_enc)] {
+                        if let Some(b) = f {
+                            self.borrowed(n, b);
+                        }
+                    }
+                }
+                ctap2::Request::LargeBlobs(l) => {
+                    for (n, f) in [("set", l.set), ("pinUvAuthParam", l.pin_uv_auth_param)] {
+                        if let Some(b) = f {
+                            self.borrowed(n, b);
+                        }
                     }
                 }
                 ctap2::Request::CredentialManagement(c) => {
+                    if let Some(b) = c.pin_auth {
+                        self.borrowed("pinAuth", b);
+                    }
                     if let Some(p) = &c.sub_command_params {
+                        if let Some(h) = p.rp_id_hash {
+                            self.borrowed("rpIDHash", &h[..]);
+                        }
                         if let Some(d) = &p.credential_id {
                             self.descriptor(d);
                         }
@@ -191,6 +249,13 @@ mod imp {
         Some(Finding { rule: rule.into(), detail })
     }
 
+    /// Generation is a function of the entropy: a second generation must compare equal.
+    fn regen_equal<'a, T: Arbitrary<'a> + PartialEq>(entropy: &'a [u8], take_rest: bool, first: &T) -> bool {
+        let mut u = Unstructured::new(entropy);
+        let again = if take_rest { T::arbitrary_take_rest(u) } else { T::arbitrary(&mut u) };
+        matches!(again, Ok(ref r2) if r2 == first)
+    }
+
     enum Out {
         NotEnough,
         OtherError(String),
@@ -204,13 +269,14 @@ mod imp {
                 if x.take_rest { <$t>::arbitrary_take_rest(u) } else { <$t>::arbitrary(&mut u) }
             };
         }
-        let mut audit = Audit { problems: Vec::new(), strings: 0, nonempty_strings: 0 };
+        let mut audit = Audit { problems: Vec::new(), strings: 0, nonempty_strings: 0, base: &x.entropy };
         match x.generator {
             0 => match gen!(ctap1::Request) {
                 Ok(r) => {
+                    audit.ctap1(&r);
                     let dbg = format!("{:?}", r);
                     let c = r.clone();
-                    Out::Ok { variant: dbg.split(['(', ' ']).next().unwrap_or("").to_string(), problems: vec![], nonempty_strings: 0, clone_eq: c == r, dbg_len: dbg.len(), dispatch: crate::c10::dispatch_generated1(&mut dev.mocks, &r) }
+                    Out::Ok { variant: dbg.split(['(', ' ']).next().unwrap_or("").to_string(), problems: audit.problems, nonempty_strings: 0, clone_eq: c == r && regen_equal(&x.entropy, x.take_rest, &r), dbg_len: dbg.len(), dispatch: crate::c10::dispatch_generated1(&mut dev.mocks, &r) }
                 }
                 Err(arbitrary::Error::NotEnoughData) => Out::NotEnough,
                 Err(e) => Out::OtherError(format!("{:?}", e)),
@@ -220,7 +286,7 @@ mod imp {
                     audit.ctap2(&r);
                     let dbg = format!("{:?}", r);
                     let c = r.clone();
-                    Out::Ok { variant: crate::real::variant_name(&r).to_string(), problems: audit.problems, nonempty_strings: audit.nonempty_strings, clone_eq: c == r, dbg_len: dbg.len(), dispatch: crate::c10::dispatch_generated2(&mut dev.mocks, &r) }
+                    Out::Ok { variant: crate::real::variant_name(&r).to_string(), problems: audit.problems, nonempty_strings: audit.nonempty_strings, clone_eq: c == r && regen_equal(&x.entropy, x.take_rest, &r), dbg_len: dbg.len(), dispatch: crate::c10::dispatch_generated2(&mut dev.mocks, &r) }
                 }
                 Err(arbitrary::Error::NotEnoughData) => Out::NotEnough,
                 Err(e) => Out::OtherError(format!("{:?}", e)),
@@ -229,9 +295,12 @@ mod imp {
                 Ok(r) => {
                     let dbg = format!("{:?}", r);
                     let c = r.clone();
-                    let clone_eq = c == r;
+                    let clone_eq = c == r && regen_equal(&x.entropy, x.take_rest, &r);
                     match &r {
-                        authenticator::Request::Ctap1(q) => Out::Ok { variant: "Ctap1".into(), problems: vec![], nonempty_strings: 0, clone_eq, dbg_len: dbg.len(), dispatch: crate::c10::dispatch_generated1(&mut dev.mocks, q) },
+                        authenticator::Request::Ctap1(q) => {
+                            audit.ctap1(q);
+                            Out::Ok { variant: "Ctap1".into(), problems: audit.problems, nonempty_strings: 0, clone_eq, dbg_len: dbg.len(), dispatch: crate::c10::dispatch_generated1(&mut dev.mocks, q) }
+                        }
                         authenticator::Request::Ctap2(q) => {
                             audit.ctap2(q);
                             Out::Ok { variant: format!("Ctap2/{}", crate::real::variant_name(q)), problems: audit.problems, nonempty_strings: audit.nonempty_strings, clone_eq, dbg_len: dbg.len(), dispatch: crate::c10::dispatch_generated2(&mut dev.mocks, q) }
@@ -264,11 +333,11 @@ mod imp {
                 log.event(&format!("generate g={} rest={} len={} -> Ok({}) dbg={} strings={} dispatch={:?}", x.generator, x.take_rest, x.entropy.len(), variant, dbg_len, nonempty_strings, dispatch.as_ref().map(|o| o.len()).map_err(|f| f.rule.clone())));
                 dev.last_outcome = format!("ok:{}:{}", variant, nonempty_strings);
                 if let Some(p) = problems.first() {
-                    let rule = if p.contains("UTF-8") { "invalid_utf8" } else { "over_capacity" };
+                    let rule = if p.contains("UTF-8") { "invalid_utf8" } else if p.contains("does not borrow") { "dangling_borrow" } else { "over_capacity" };
                     return finding(rule, format!("generated {} request is not internally valid: {} [{}]", variant, p, x.desc));
                 }
                 if !clone_eq {
-                    return finding("clone_differs", format!("generated {} request does not compare equal to its clone [{}]", variant, x.desc));
+                    return finding("clone_differs", format!("generated {} request does not compare equal to its clone or to a second generation from the same bytes [{}]", variant, x.desc));
                 }
                 if let Err(f) = dispatch {
                     return finding(&format!("dispatch_{}", f.rule), format!("generated {} request could not be dispatched without fault: {} [{}]", variant, f.detail, x.desc));
@@ -335,10 +404,14 @@ fn text_field(rng: &mut Rng, cap: usize, out: &mut Vec<u8>) -> String {
         _ => (lead + cut) as u64,
     };
     out.extend_from_slice(&n.to_le_bytes());
-    let ascii = b"abcdefghijklmnopqrstuvwxyz";
-    for i in 0..lead {
-        // mostly ASCII, sometimes an ill-formed byte in the middle (error_len = Some)
-        out.push(if rng.chance(1, 200) { 0xff } else { ascii[i % 26] });
+    // the part before the cut: ASCII, or 1-4 byte characters, occasionally with an ill-formed byte (error_len = Some)
+    if rng.coin() {
+        let ascii = b"abcdefghijklmnopqrstuvwxyz";
+        for i in 0..lead {
+            out.push(if rng.chance(1, 200) { 0xff } else { ascii[i % 26] });
+        }
+    } else {
+        out.extend_from_slice(&crate::schema::utf8_text(rng, lead));
     }
     out.extend_from_slice(&ch[..cut]);
     let follower = rng.below(5);
